@@ -59,9 +59,11 @@ class _SocketHub:
         self, socket: thread_socket.ThreadSocket, timeout: Optional[float] = None
     ) -> None:
         """Connects a socket to another"""
+        # NOTE: callbacks need to be registered before the socket becomes visible to
+        # the remote side, otherwise an early message is queued instead of delivered.
+        self._add_callbacks(socket)
         self._open_sockets.add(socket.key)
         self._remote_sockets.add(socket.key)
-        self._add_callbacks(socket)
 
         self._wait_for_remote(socket, timeout=timeout)
 
